@@ -108,10 +108,18 @@ def check_explicit(ctx, c):
     if tsuf:
         t = [int(x) for x in tsuf.strip().split(":")]
         exp = exp.replace(hour=t[0], minute=t[1], second=t[2] if len(t) > 2 else 0)
-    p = parser_for(languages=[lang], settings={"DATE_ORDER": o, "PREFER_LOCALE_DATE_ORDER": pl})
     PathTap.reset()
     try:
-        r = p.get_date_data(s)["date_obj"]
+        if (y + m + d) % 3 == 0:
+            # the function entry point (its own settings handling) for a third of the cases
+            import dateparser
+
+            r = dateparser.parse(s, languages=[lang], settings={"DATE_ORDER": o, "PREFER_LOCALE_DATE_ORDER": pl})
+            ctx.count("via:dateparser.parse")
+        else:
+            p = parser_for(languages=[lang], settings={"DATE_ORDER": o, "PREFER_LOCALE_DATE_ORDER": pl})
+            r = p.get_date_data(s)["date_obj"]
+            ctx.count("via:DateDataParser")
     except Exception as e:
         r = e
     ctx.ran()
